@@ -147,6 +147,7 @@ type dialCapture struct {
 	err    error
 	echoOK bool
 	fp     string
+	noPing bool // the first flight carried no PING frame
 	tpIDs  []uint64 // spec.TransportParameterIDs() right after the dial
 }
 
@@ -503,6 +504,14 @@ func checkClientHello(w *World, n *Nodes, sc *DialScenario, di int, cp *dialCapt
 	}
 	ch := cp.conn.CH
 	cs := n.Spec.ClientHelloSpec
+	{
+		var et []string
+		for _, e := range ch.Exts {
+			et = append(et, fmt.Sprintf("%x/%d", e.Type, len(e.Body)))
+		}
+		ff := firstFlight(cp.conn)
+		res.Logf("dial #%d ClientHello: %d bytes, suites %x, exts %v, tps %v, dcid %d scid %d token %d pnlen %d", di, len(ch.Raw), ch.Suites, et, tpIDs(ch.TPs, func(t TapTP) uint64 { return t.ID }), len(ff[0].DCID), len(ff[0].SCID), len(ff[0].Token), ff[0].PNLen)
+	}
 	// cipher suites (GREASE placeholders are replaced by a GREASE value)
 	if len(ch.Suites) != len(cs.CipherSuites) {
 		report("C11", "cipher suite list differs from the ClientHelloSpec", "dial #%d: wire %x spec %x", di, ch.Suites, cs.CipherSuites)
@@ -593,6 +602,27 @@ func checkClientHello(w *World, n *Nodes, sc *DialScenario, di int, cp *dialCapt
 	for _, tp := range ch.TPs {
 		gotTP = append(gotTP, kv{tp.ID, string(tp.Val)})
 	}
+	// values that are drawn afresh every time they are serialised are compared by shape: GREASE versions inside
+	// version_information, and the body of GREASE parameters (by length)
+	norm := func(l []kv) {
+		for i := range l {
+			switch {
+			case l[i].id == 0x11 || l[i].id == 0xff73db:
+				b := []byte(l[i].val)
+				for o := 0; o+4 <= len(b); o += 4 {
+					// (uTLS draws GREASE versions as random|0x0a0a0a0a)
+					if b[o]&0x0a == 0x0a && b[o+1]&0x0a == 0x0a && b[o+2]&0x0a == 0x0a && b[o+3]&0x0a == 0x0a {
+						copy(b[o:], "GREA")
+					}
+				}
+				l[i].val = string(b)
+			case l[i].id >= 27 && (l[i].id-27)%31 == 0:
+				l[i].val = fmt.Sprintf("grease-body-%d", len(l[i].val))
+			}
+		}
+	}
+	norm(wantTP)
+	norm(gotTP)
 	for _, s := range n.Spec.SuppressTransportParameters {
 		for _, g := range gotTP {
 			if g.id == s || (s == 27 && g.id >= 27 && (g.id-27)%31 == 0) {
@@ -628,7 +658,14 @@ func checkClientHello(w *World, n *Nodes, sc *DialScenario, di int, cp *dialCapt
 		}
 		res.Probe("tp-shuffled")
 	} else if !cmp(wantTP, gotTP) {
-		report("C11", "transport parameters on the wire differ from the spec's list (ids, values or order)", "dial #%d: wire %v spec %v", di, tpIDs(gotTP, func(k kv) uint64 { return k.id }), tpIDs(wantTP, func(k kv) uint64 { return k.id }))
+		diff := ""
+		for i := 0; i < min(len(wantTP), len(gotTP)); i++ {
+			if wantTP[i] != gotTP[i] {
+				diff = fmt.Sprintf("position %d: wire %#x=%x spec %#x=%x", i, gotTP[i].id, gotTP[i].val, wantTP[i].id, wantTP[i].val)
+				break
+			}
+		}
+		report("C11", "transport parameters on the wire differ from the spec's list (ids, values or order)", "dial #%d: %s; wire %v spec %v", di, diff, tpIDs(gotTP, func(k kv) uint64 { return k.id }), tpIDs(wantTP, func(k kv) uint64 { return k.id }))
 	}
 	// TransportParameterIDs() = canonicalised wire list
 	var canon []uint64
@@ -646,6 +683,14 @@ func checkClientHello(w *World, n *Nodes, sc *DialScenario, di int, cp *dialCapt
 	// reference fingerprinter on the captured first flight (only meaningful for packet numbers it accepts)
 	if sc.Cfg.Derive == nil {
 		cp.fp = fingerprintOf(w, cp.conn)
+		cp.noPing = true
+		for _, p := range firstFlight(cp.conn) {
+			for i := range p.Frames {
+				if p.Frames[i].Name == "PING" {
+					cp.noPing = false
+				}
+			}
+		}
 		if cp.fp == "" {
 			res.Probe("fingerprinter-gave-no-id")
 		}
@@ -687,32 +732,47 @@ func fingerprintOf(w *World, c *TapConn) (id string) {
 	if !gci.Completed() {
 		return ""
 	}
-	return gci.HexID
+	qfp, err := clienthellod.GenerateQUICFingerprint(gci)
+	if err != nil {
+		return ""
+	}
+	runtime.SetFinalizer(qfp, nil)
+	return qfp.HexID
 }
 
 func checkAcrossDials(sc *DialScenario, caps []*dialCapture, report func(prop, sig, f string, a ...any), res *KResult) {
-	var fps []string
 	var toks [][]byte
+	var fps [2][]string // [0] flights with PING frames, [1] flights without
 	for _, cp := range caps {
 		if cp.conn == nil || cp.err != nil {
 			continue
 		}
 		if cp.fp != "" {
-			fps = append(fps, cp.fp)
+			k := 0
+			if cp.noPing {
+				k = 1
+			}
+			fps[k] = append(fps[k], cp.fp)
 		}
 		if ff := firstFlight(cp.conn); len(ff) > 0 && !cp.conn.Retried {
 			toks = append(toks, ff[0].Token)
 		}
 	}
-	for i := 1; i < len(fps); i++ {
-		if fps[i] != fps[0] {
-			report("C11", "fingerprint identifier changes from dial to dial", "%v (%s)", fps, sc.Cfg.Client)
+	want, recorded := wRecordedFP[sc.Cfg.Client]
+	for k, suffix := range []string{"", " (a first flight without any PING frame: the builder's lower bound for PING frames is 0)"} {
+		for i := 1; i < len(fps[k]); i++ {
+			if fps[k][i] != fps[k][0] {
+				report("C11", "fingerprint identifier changes from dial to dial"+suffix, "%v (%s)", fps[k], sc.Cfg.Client)
+			}
+		}
+		if recorded && len(fps[k]) > 0 && fps[k][0] != want {
+			report("C11", "fingerprint identifier computed from the wire differs from the one recorded in the QUICID"+suffix, "%s: wire %s recorded %s", sc.Cfg.Client, fps[k][0], want)
 		}
 	}
-	if want, ok := wRecordedFP[sc.Cfg.Client]; ok && len(fps) > 0 && fps[0] != want {
-		report("C11", "fingerprint identifier computed from the wire differs from the one recorded in the QUICID", "%s: wire %s recorded %s", sc.Cfg.Client, fps[0], want)
+	if len(fps[0]) > 0 && len(fps[1]) > 0 && fps[0][0] != fps[1][0] {
+		report("C11", "fingerprint identifier changes from dial to dial (a first flight without any PING frame: the builder's lower bound for PING frames is 0)", "with PING %v, without %v (%s)", fps[0], fps[1], sc.Cfg.Client)
 	}
-	if len(fps) > 0 {
+	if len(fps[0])+len(fps[1]) > 0 {
 		res.Probe("fingerprint-computed")
 	}
 	// synthesised tokens are fresh per dial (when they have a random part of at least 4 bytes)
